@@ -1,5 +1,5 @@
 #!/bin/bash
-# usage: lib/pp_sweep.sh <slot> <PP-id>...
+# usage: [PROPS="C04 C17"] lib/pp_sweep.sh <slot> <PP-id>...      (PROPS: only these checks; default all twenty)
 # Property-PRESERVING changes (seeded_pp/): every quick check must stay quiet (exit 0, no VIOLATION line) on each of them.
 # Runs in the scratch copy /tmp/sw<slot> like lib/sweep.sh; results in work/pp_results_<start time>_<slot>.txt
 slot=$1; shift
@@ -19,7 +19,7 @@ out=/verif/work/pp_results_$(date -u +%Y%m%dT%H%M%S)_$slot.txt; : > "$out"
 ln -sfn "$out" /verif/work/pp_latest_$slot.txt
 for id in "$@"; do
   REPO_DIR=$base/repo VERIF_DIR=$base/verif /verif/lib/mutant.sh "/verif/seeded_pp/$id/patch.diff" \
-    C01 C02 C03 C04 C05 C06 C07 C08 C09 C10 C11 C12 C13 C14 C15 C16 C17 C18 C19 C20 2>&1 \
+    ${PROPS:-C01 C02 C03 C04 C05 C06 C07 C08 C09 C10 C11 C12 C13 C14 C15 C16 C17 C18 C19 C20} 2>&1 \
     | grep -e RESULT -e PATCH | sed "s#^#$id #" | cut -c1-330 >> "$out"
 done
 echo DONE >> "$out"
